@@ -646,6 +646,14 @@ func (f *SQLFormatter) formatWithClause(with *ast.WithClause) error {
 
 		f.builder.WriteString(" ")
 		f.writeKeyword("AS")
+		if cte.Materialized != nil {
+			f.builder.WriteString(" ")
+			if *cte.Materialized {
+				f.writeKeyword("MATERIALIZED")
+			} else {
+				f.writeKeyword("NOT MATERIALIZED")
+			}
+		}
 		f.builder.WriteString(" (")
 
 		if !f.compact {
